@@ -38,6 +38,7 @@ F_SRC = "C12-src-copy-basename"
 F_PAR = "C12-parallel-graph-dir-crash"
 F_RACE = "C12-parallel-graph-file-race"
 F_CASE = "C12-case-collision-hash-order"
+F_TOPO = "C12-numbering-toposort-set-order"
 
 
 # --------------------------------------------------------------------------
@@ -348,6 +349,7 @@ class Gen:
             bases.setdefault(os.path.basename(f["path"]), []).append(f["path"])
         same_base = {b: v for b, v in bases.items() if len(v) > 1}
         return {"collide": collide, "multi_use": multi, "same_base": same_base, "nfiles": len(self.files),
+                "collide_topo": sorted(k for k in collide if k.split(":")[0] in ("type", "module")),
                 "case_collide": case_collide}
 
     def model_records(self, uid_of):
@@ -683,6 +685,11 @@ def classify(feat, options, base, other, diff_files, same_order: bool):
         # first-come numbering: contents may move between foo.html and foo~2.html, but the
         # *set* of output files (URLs) must not change
         if paths_equal:
+            moved = set(assignment(base)) ^ set(assignment(other))
+            if same_order and feat.get("collide_topo") and all(m[2] in ("type", "module") for m in moved):
+                # same parse order, yet equally named types / (sub)modules swap their numbers: their identifiers
+                # are first requested by the comparisons inside toposort's sorted() over an identity-hashed set
+                return F_TOPO, "equally named types / modules: " + ", ".join(feat["collide_topo"][:4])
             return F_NUM, "entities share (get_dir(), name): " + ", ".join(sorted(feat["collide"])[:4])
         return None, "set of output files differs although only the numbering may be order dependent"
     if not paths_equal:
@@ -836,6 +843,9 @@ def run(tier: str, seed: int, replay: str | None = None) -> int:
         for proj in projects:
             pi = proj["index"]
             feat = proj["features"]
+            if variant[3] == "lower" and feat.get("case_collide"):
+                # repaired NameSelector: names differing in case are ordinary equal keys (numbered foo, foo~2)
+                feat = dict(feat, case_collide=[])
             res = results.get(pi, {})
             base = res.get(0)
             cls_names = [n for n, v in (("collide", feat["collide"]), ("multi_use", feat["multi_use"]),
@@ -1017,8 +1027,8 @@ def run(tier: str, seed: int, replay: str | None = None) -> int:
         traces_validated_against_impl=ev_s + ev_n + ev_f + len(number_reqs) + n_site,
         correspondence_disagreements=bad_s + bad_n + bad_f + bad_tr,
         e2e_runs=n_runs, e2e_pairs_compared=n_pairs, e2e_pairs_differing=n_diff_pairs, e2e_wall_s=round(e2e_wall, 1),
-        variant_decided={"file iteration": variant[1], "uses iteration": variant[2]},
-        generated_tables={k: tables.get(k) for k in ("fileIterSorted", "usesIterSorted", "writeoutSteps", "pageListOrder",
+        variant_decided={"file iteration": variant[1], "uses iteration": variant[2], "NameSelector counter key": variant[3]},
+        generated_tables={k: tables.get(k) for k in ("fileIterSorted", "countKeyLower", "usesIterSorted", "writeoutSteps", "pageListOrder",
                                                       "fortranFileOrder", "unitChainOrder")},
         input_histogram=dict(sorted(hist.items())),
     )
